@@ -153,6 +153,15 @@ CHECKS = {
              "mutation of the caller's Bindings (dc7ba0c).",
         design="4/C15",
         note="Trusted base: deep equality of vars(obj) as 'observably equal'; vf/freshserver.py for the pristine-interpreter reference; Hypothesis stateful engine."),
+    "C08": dict(
+        technique="property-based testing with sampled schedules (Hypothesis): generated specifications compiled twice in each of 8/32 worker processes started with different PYTHONHASHSEED values; oracle = within-process repeatability + every distinct text closed (definite assignment), executed on a reference model vs dense evaluation, metrics texts cross-referenced and compared on their multiset of trace registrations",
+        text="Generated-input search over the specification families whose compilation iterates sets (several partitioned ranks, occupancy, "
+             "one or two flattenings per tensor incl. dynamic ones, cascades, metrics) x sampled interpreter hash seeds: worker processes "
+             "with distinct PYTHONHASHSEED values compile each specification twice; texts must repeat within a process, a specification "
+             "must compile under all sampled seeds or none, and every distinct text must be closed and compute the dense result on the "
+             "same inputs. Hash seeds are sampled (2^32 cannot be enumerated); C10 complements this by drawing arbitrary linear extensions.",
+        design="4/C08",
+        note="Trusted base: the reference model and dense evaluator, vf/pyscope.py, vf/seedworker.py; 8/32 sampled hash seeds per run."),
 }
 
 NOT_APPLICABLE = {}
